@@ -63,7 +63,7 @@ fn qcase(max_len: usize) -> BoxedStrategy<QCase> {
         2 => Just(QOp::ToVec),
         2 => proptest::sample::select(vec![Build::FromVec, Build::From, Build::Text, Build::Json]).prop_map(QOp::Rebuild),
         1 => gen::size_class(17).prop_map(QOp::Stale),
-        3 => (0u8..5, any::<u16>()).prop_map(|(k, l)| QOp::Render(k, l)),
+        3 => (0u8..8, any::<u16>()).prop_map(|(k, l)| QOp::Render(k, l)),
         2 => any::<u16>().prop_map(QOp::Repush),
     ];
     (gen::id_pool(3, 8), proptest::collection::vec(op, 0..=max_len))
@@ -231,9 +231,27 @@ pub fn eval(c: &QCase, st: &mut Stats, excuse_kf: bool) -> Result<Outcome, Strin
             }
             QOp::Render(k, limit) => {
                 st.count("queue_op/render");
-                let r = catch(|| match k % 5 {
+                let r = catch(|| match k % 8 {
                     0 => {
                         let _ = format!("{:?}", q);
+                    }
+                    5 | 6 | 7 => {
+                        // the text (or debug) form written into a sink that fails part-way
+                        use std::fmt::Write as _;
+                        use std::io::Write as _;
+                        let full = q.to_string().len();
+                        let lim = (*limit as usize * (full + 1)) >> 16;
+                        match k % 8 {
+                            5 => {
+                                let _ = write!(FailingFmt { limit: lim }, "{}", q);
+                            }
+                            6 => {
+                                let _ = write!(crate::checks::codec::FailingWriter { limit: lim }, "{}", q);
+                            }
+                            _ => {
+                                let _ = write!(FailingFmt { limit: lim }, "{:?}", q);
+                            }
+                        }
                     }
                     1 => {
                         let _ = q.to_string();
@@ -254,6 +272,30 @@ pub fn eval(c: &QCase, st: &mut Stats, excuse_kf: bool) -> Result<Outcome, Strin
                 if let Err(m) = r {
                     return fail(format!("rendering the queue panicked: {m}"));
                 }
+                // whatever was rendered before (completely or not), the text and JSON forms taken
+                // now describe the queue as it is now
+                let t = q.to_string();
+                match catch(|| OrderQueue::from_str(&t)) {
+                    Ok(Ok(x)) => {
+                        let v: Vec<Order> = x.to_vec().iter().map(|a| **a).collect();
+                        if sorted(&v) != sorted(&model) {
+                            return fail(format!(
+                                "after rendering, the queue's text form {:?} describes [{}] but [{}] are queued",
+                                t,
+                                v.iter().map(brief).collect::<Vec<_>>().join(", "),
+                                model.iter().map(brief).collect::<Vec<_>>().join(", ")
+                            ));
+                        }
+                    }
+                    Ok(Err(e)) => return fail(format!("the queue cannot parse its own text {:?}: {}", t, e)),
+                    Err(m) => return fail(format!("from_str panicked: {m}")),
+                }
+                let j = serde_json::to_string(&q).map_err(|e| format!("serialize queue: {e}"))?;
+                let arr: Vec<Order> = serde_json::from_str(&j).map_err(|e| format!("queue JSON is not an order list: {e}"))?;
+                if sorted(&arr) != sorted(&model) {
+                    return fail(format!("after rendering, the queue's JSON form lists {} orders but {} are queued", arr.len(), model.len()));
+                }
+                st.count("queue_op/render_then_text_and_json_compared");
             }
             QOp::Stale(n) => {
                 st.count("queue_op/stale_bulk");
@@ -437,4 +479,20 @@ pub fn replay(cfg: &RunCfg, v: &serde_json::Value) -> Result<(), String> {
             println!("known-finding KF-C19-1 signature hit {} times", o.kf_hits);
         }
     })
+}
+
+/// a `fmt::Write` sink that accepts `limit` bytes and then fails
+pub struct FailingFmt {
+    pub limit: usize,
+}
+
+impl std::fmt::Write for FailingFmt {
+    fn write_str(&mut self, s: &str) -> std::fmt::Result {
+        if s.len() > self.limit {
+            self.limit = 0;
+            return Err(std::fmt::Error);
+        }
+        self.limit -= s.len();
+        Ok(())
+    }
 }
